@@ -282,6 +282,48 @@ func CheckC13(r *Run) int {
 	}, gosym.ExploreOpts{Workers: r.Workers, OnPath: onPath, TimeoutMS: 10000, Budget: gosym.Budget{MaxPaths: 100000, Steps: 1_000_000, Depth: 120}})
 	r.Absorb("H_C13_import_graphs", st, "3 files, every file's import list is any subset of {main, a, b} (main also: a missing file): all 1024 graphs including cycles and self-imports")
 	flush()
+	// (d) statements in contexts: jump statements, bare expressions and value-less calls at every kind of position
+	ctxMenu := []string{
+		"%S%\n",
+		"if gv == 1 {\n\t%S%\n}\n",
+		"for i := 0; i < 2; i++ {\n\t%S%\n}\n",
+		"switch gv {\ncase 1:\n\t%S%\ndefault:\n\t%S%\n}\n",
+		"for gv < 3 {\n\tswitch gv {\n\tcase 1:\n\t\t%S%\n\t}\n\tgv++\n}\n",
+		"func h() {\n\t%S%\n}\nh()\n",
+		"func h() int {\n\tswitch gv {\n\tcase 1:\n\t\t%S%\n\t}\n\treturn 1\n}\nprint(h())\n",
+		"func h() int {\n\tfor {\n\t\tif gv == 1 {\n\t\t\t%S%\n\t\t}\n\t\tbreak\n\t}\n\treturn 2\n}\nprint(h())\n",
+		"for _, e := range gsl {\n\tswitch {\n\tcase e == 1:\n\t\t%S%\n\t}\n}\n",
+		"if gv == 1 {\n} else if gv == 2 {\n\t%S%\n} else {\n\t%S%\n}\n",
+	}
+	stmtMenu := []string{"break", "continue", "return", "return 1", "return 1, 2", "gv", "1", "\"s\"", "(gv)", "void()", "print(void())", "panic(void())", "x := void()", "gv = void()",
+		"@ls(void())", "switch void() {\n}", "len(gsl)", "gsl[0]", "gs[0]", "gs[0:1]", "copy(gsl, gsl)", "itoa(gv)", "exists(gs)", "read(gs)", "input()", "two()", "x := two()", "gv, gs = two()",
+		"var y int", "y := []int{}", "func inner() {\n}", "import \"strings\"", "gv++", "gv += void()", "for {\n}", "if void() {\n}", "gsl[void()] = 1", "gsl[0] = void()", "write(gs, void())", "{", "}"}
+	st = r.Eng.Explore(func(c *gosym.Ctx) interface{} {
+		ctx := ctxMenu[c.Choose("context", 0, len(ctxMenu)-1)]
+		stm := stmtMenu[c.Choose("statement", 0, len(stmtMenu)-1)]
+		src := "gv := 1\ngs := \"g\"\ngsl := []int{1}\nfunc void() {\n\tprint(0)\n}\nfunc two() (int, string) {\n\treturn 1, \"t\"\n}\n" + strings.ReplaceAll(ctx, "%S%", stm)
+		return totalityPath(c, map[string]gosym.Str{"main.tsh": gosym.Conc(src)}, "main.tsh")
+	}, opts(100000))
+	r.Absorb("H_C13_statements_in_contexts", st, fmt.Sprintf("%d statement forms (jumps, bare expressions, value-less calls as operands, declarations) x %d contexts (top level, if/else, for, switch, switch in for, function, switch/for in function, range), both targets", len(stmtMenu), len(ctxMenu)))
+	flush()
+	// (e) call graphs whose number of call paths grows exponentially with their depth
+	depths := []int{8, 24, 48}
+	st = r.Eng.Explore(func(c *gosym.Ctx) interface{} {
+		n := depths[c.Choose("depth", 0, len(depths)-1)]
+		fan := c.Choose("fan", 1, 3)
+		var sb strings.Builder
+		for k := 0; k < n; k++ {
+			sb.WriteString(fmt.Sprintf("func f%d() int {\n\treturn 1", k))
+			for j := 1; j <= fan && k-j >= 0; j++ {
+				sb.WriteString(fmt.Sprintf(" + f%d()", k-j))
+			}
+			sb.WriteString("\n}\n")
+		}
+		sb.WriteString(fmt.Sprintf("print(f%d())\n", n-1))
+		return totalityPath(c, map[string]gosym.Str{"main.tsh": gosym.Conc(sb.String())}, "main.tsh")
+	}, gosym.ExploreOpts{Workers: r.Workers, OnPath: onPath, TimeoutMS: 10000, Budget: gosym.Budget{MaxPaths: 1000, Steps: 60_000_000, Depth: 2000}})
+	r.Absorb("H_C13_call_graph_depth", st, "chains of 8/24/48 functions where each calls its 1..3 predecessors (number of call paths up to 3^48), both targets; instruction budget 6e7 per path")
+	flush()
 	// paths that ran out of the instruction/depth budget are hang candidates: reproduce them natively
 	hang := 0
 	for _, s := range r.Stats {
